@@ -236,6 +236,7 @@ def engine_scenarios(tier, seed):
     # watch mode on real inotify: clean-tree start, edits while building, convergence, no rebuild loop
     for rep_ in range(12 if quick else 48):
         sc.append({"type": "watchconv", "name": "watchconv_%d" % rep_, "clean_tree": rep_ % 2 == 0, "edits": rng.choice([1, 2, 2, 3]),
+                   "variant": ["plain", "filters", "failfix"][rep_ % 3],
                    "gaps": [rng.choice([0.03, 0.08, 0.12, 0.18, 0.3, 0.45]) for _ in range(3)], "during_first_build": rep_ % 4 < 2,
                    "cfg": dict(gen_configs.finish({"n": 2, "kind": ["b", "b"], "deps": [[], [1]], "roots": [2], "watch": True}, 900 + rep_),
                                id="bbw%d" % rep_, inh=[[], [1]]),
@@ -372,11 +373,23 @@ WATCH_YAML = """targets:
 """
 
 
+# the same, with the producer's input declared as one directory under two extension filters (the edited file matches the
+# second one only), and a producer that fails on contents starting with "bad" (a broken edit fixed while its build runs)
+WATCH_YAML_FILTERS = WATCH_YAML.replace("""      - paths: [in_p.txt]
+""", """      - paths: [.]
+        extensions: [md]
+      - paths: [.]
+        extensions: [txt]
+""").replace("      sleep 0.25\n", "      sleep 0.25\n      case $v in bad*) exit 1;; esac\n")
+
+
 def run_watch_scenario(s):
     d = os.path.join(CACHE, "scratch", "bb_" + s["cfg"]["id"])
     shutil.rmtree(d, ignore_errors=True)
     os.makedirs(d)
-    open(os.path.join(d, "zinoma.yml"), "w").write(WATCH_YAML)
+    variant = s.get("variant", "plain")
+    open(os.path.join(d, "zinoma.yml"), "w").write(WATCH_YAML if variant == "plain" else WATCH_YAML_FILTERS)
+    open(os.path.join(d, "readme.md"), "w").write("notes\n")
     open(os.path.join(d, "in_p.txt"), "w").write("v0\n")
     if not s["clean_tree"]:
         os.makedirs(os.path.join(d, "gen"))
@@ -402,10 +415,17 @@ def run_watch_scenario(s):
         state["ver"] += 1
         open(os.path.join(d, "in_p.txt"), "w").write("v%d\n" % state["ver"])
 
+    def bad_edit(_d):
+        open(os.path.join(d, "in_p.txt"), "w").write("bad%d\n" % state["ver"])
+
     # the action list of run_zinoma is time based; build it from the scenario
     acts = []
     t = 0.15 if s["during_first_build"] else 1.2
     for k in range(s["edits"]):
+        if variant == "failfix" and k == s["edits"] - 1:
+            # a broken edit, repaired while the (failing) build it caused is still running
+            acts.append((t, bad_edit))
+            t += 0.12
         acts.append((t, edit))
         t += s["gaps"][k % len(s["gaps"])]
 
